@@ -1,0 +1,80 @@
+//go:build verif
+
+package proxy
+
+import (
+	"net"
+
+	"go.minekube.com/common/minecraft/component"
+	"go.minekube.com/gate/pkg/edition/java/netmc"
+	"go.minekube.com/gate/pkg/edition/java/profile"
+	"go.minekube.com/gate/pkg/edition/java/proto/packet"
+)
+
+// Verification hooks for initial/fallback server choice (property C17).
+// Add-only, compiled only with -tags verif; no existing behaviour is changed.
+
+// VerifC17Player wraps an unexported connectedPlayer built by VerifC17NewPlayer.
+type VerifC17Player struct{ p *connectedPlayer }
+
+// VerifC17NewPlayer builds a connectedPlayer over conn with the given virtual host, using the
+// same sessionHandlerDeps as Proxy.HandleConn.
+func VerifC17NewPlayer(px *Proxy, conn netmc.MinecraftConn, prof *profile.GameProfile, vhost net.Addr) *VerifC17Player {
+	deps := &sessionHandlerDeps{
+		proxy:          px,
+		registrar:      px,
+		configProvider: px,
+		eventMgr:       px.event,
+		authenticator:  px.authenticator,
+		loginsQuota:    px.loginsQuota,
+	}
+	return &VerifC17Player{p: newConnectedPlayer(conn, prof, vhost, packet.LoginHandshakeIntent, false, nil, deps)}
+}
+
+// Player returns the public Player value.
+func (v *VerifC17Player) Player() Player { return v.p }
+
+// NextServerToTry calls connectedPlayer.nextServerToTry(failed); failed may be nil.
+// Returns an explicit nil when no server is available.
+func (v *VerifC17Player) NextServerToTry(failed RegisteredServer) RegisteredServer {
+	rs := v.p.nextServerToTry(failed)
+	if rs == nil {
+		return nil
+	}
+	return rs
+}
+
+func (v *VerifC17Player) serverConn(rs RegisteredServer) *serverConnection {
+	if rs == nil {
+		return nil
+	}
+	s, ok := rs.(*registeredServer)
+	if !ok {
+		return nil
+	}
+	return newServerConnection(s, nil, v.p)
+}
+
+// SetCurrentServer makes a fresh serverConnection to rs the player's connected server through
+// connectedPlayer.setConnectedServer (which also resets the try cursor, as after a real join).
+// rs == nil is ignored.
+func (v *VerifC17Player) SetCurrentServer(rs RegisteredServer) {
+	if sc := v.serverConn(rs); sc != nil {
+		v.p.setConnectedServer(sc)
+	}
+}
+
+// SetInFlightServer sets (rs != nil) or clears (rs == nil) the in-flight connection through
+// connectedPlayer.setInFlightConnection.
+func (v *VerifC17Player) SetInFlightServer(rs RegisteredServer) {
+	v.p.setInFlightConnection(v.serverConn(rs))
+}
+
+// VirtualHostname returns connectedPlayer.getVirtualHostname().
+func (v *VerifC17Player) VirtualHostname() string { return v.p.getVirtualHostname() }
+
+// KickedFrom calls connectedPlayer.handleDisconnectWithReason(rs, reason, true), the entry
+// point the backend session handlers use when a backend kicks the player.
+func (v *VerifC17Player) KickedFrom(rs RegisteredServer, reason component.Component) {
+	v.p.handleDisconnectWithReason(rs, reason, true)
+}
